@@ -137,6 +137,104 @@ func runC02(c *fw.Ctx) {
 			gradCheck(k, in, []*ref.T{x}, []bool{true}, g, "")
 		})
 	}
+	// extreme second operands under a matching upstream weighting: a quotient by a subnormal or tiny divisor (the gradient of the
+	// dividend is weighting / divisor: an ordinary number when the weighting is tiny too, while the reciprocal of a subnormal
+	// divisor alone overflows), a product with a huge factor under a tiny weighting
+	for i := 0; i < c.Pick(400, 8000); i++ {
+		c.Case(func(k *fw.K) {
+			r := k.Rng
+			shape := RandShape(r, 0, 2, 3)
+			a, b, g := ref.Zeros(shape), ref.Zeros(shape), ref.Zeros(shape)
+			variant := []string{"div-subnormal", "div-tiny", "mul-huge"}[r.Intn(3)]
+			sign := func() float64 { return []float64{1, -1}[r.Intn(2)] }
+			for i := range a.Data {
+				switch variant {
+				case "div-subnormal":
+					b.Data[i] = sign() * (1e-310 + 4e-309*r.Float64())
+					a.Data[i] = b.Data[i] * (0.5 + 1.5*r.Float64())
+					g.Data[i] = []float64{0, 1e-300 * (0.5 + r.Float64()), -1e-305, 3e-309}[r.Intn(4)]
+				case "div-tiny":
+					b.Data[i] = sign() * 1e-300 * (0.5 + r.Float64())
+					a.Data[i] = b.Data[i] * (0.5 + 1.5*r.Float64())
+					g.Data[i] = []float64{0, 1e-290 * (0.5 + r.Float64()), -1e-300}[r.Intn(3)]
+				default:
+					b.Data[i] = sign() * 1e300 * (0.5 + r.Float64())
+					a.Data[i] = sign() * 1e-300 * (0.5 + r.Float64())
+					g.Data[i] = []float64{0, 1e-300 * (0.5 + r.Float64()), -1e-295}[r.Intn(3)]
+				}
+			}
+			in := ref.Instr{Op: "div"}
+			if variant == "mul-huge" {
+				in.Op = "mul"
+			}
+			xs, mask := []*ref.T{a, b}, []bool{true, false}
+			if in.Op == "mul" && r.Intn(2) == 0 {
+				xs, mask = []*ref.T{b, a}, []bool{false, true}
+			}
+			k.Case = gcase{In: in, Ops: xs, Tracked: mask, G: g}
+			k.Key("extreme-operand/%s/%s", variant, shapeKey(shape))
+			k.Count("extreme_second_operand_cases", 1)
+			gradCheck(k, in, xs, mask, g, "")
+		})
+	}
+	// Pow with a TINY non-zero exponent (|a| down to 1e-300: a - 1 rounds to -1, the exponent is still not 0) under an upstream
+	// weighting that makes a * x^(a-1) * g an ordinary number; and Scale by 1e+-300 under the opposite weighting
+	for i := 0; i < c.Pick(300, 6000); i++ {
+		c.Case(func(k *fw.K) {
+			r := k.Rng
+			shape := RandShape(r, 0, 2, 3)
+			x := Shuffled(r, UniquePos(r, shape, 0.2, 2.5))
+			g := ref.Zeros(shape)
+			in := ref.Instr{Op: "pow", F: []float64{1e-17, -1e-16, 3e-17, 1e-300, -1e-200, 1e-100}[r.Intn(6)]}
+			if r.Intn(4) == 0 {
+				in = ref.Instr{Op: "scale", F: []float64{1e-300, 1e300, -1e-200}[r.Intn(3)]}
+			}
+			for i := range g.Data {
+				g.Data[i] = (0.5 + r.Float64()) / math.Abs(in.F) * []float64{1, -1}[r.Intn(2)]
+				if r.Intn(6) == 0 {
+					g.Data[i] = 0
+				}
+			}
+			k.Case = gcase{In: in, Ops: []*ref.T{x}, Tracked: []bool{true}, G: g}
+			k.Key("tiny-argument/%s/%g/%s", in.Op, in.F, shapeKey(shape))
+			k.Count("tiny_scalar_argument_cases", 1)
+			gradCheck(k, in, []*ref.T{x}, []bool{true}, g, "")
+		})
+	}
+	// Concat over MANY operands (up to 130: beyond the width of any machine word used as an operand mask), tracked operands at
+	// late positions, one operand object at several positions
+	for i := 0; i < c.Pick(60, 1200); i++ {
+		c.Case(func(k *fw.K) {
+			r := k.Rng
+			n := []int{33, 64, 65, 66, 72, 100, 129, 130}[r.Intn(8)]
+			shape := [][]int{{1}, {2}, {1, 2}, {2, 1}}[r.Intn(4)]
+			dim := r.Intn(len(shape))
+			xs := make([]*ref.T, n)
+			mask := make([]bool, n)
+			for i := range xs {
+				xs[i] = Shuffled(r, Unique(r, shape, 0.2, 2.5))
+				mask[i] = r.Intn(3) == 0 || i == n-1 || i == 64
+			}
+			in := ref.Instr{Op: "concat", Dim: dim}
+			y, err := ref.Apply(in, xs)
+			if err != nil {
+				k.Failf("harness: %v", err)
+				return
+			}
+			g := randG(k, y.Shape)
+			k.Case = map[string]any{"op": "concat", "operands": n, "shape": shape, "dim": dim, "tracked": mask}
+			k.Key("concat-many/%d/%s/%d", n, shapeKey(shape), dim)
+			k.Count("concat_cases_with_more_than_32_operands", 1)
+			gradCheck(k, in, xs, mask, g, "")
+		})
+	}
+	// ARBITRARY index / dim / shape arguments (partial, shifted, open-ended, reversed, out of range): whether the forward call is
+	// accepted is C09's business - but a call that WAS accepted on a tracked operand must then back-propagate without an error
+	// and leave a finite gradient of the operand's shape ("a forward call that was accepted never makes the subsequent
+	// back-propagation fail")
+	for i := 0; i < c.Pick(3000, 60000); i++ {
+		c.Case(func(k *fw.K) { c02Accepted(k) })
+	}
 	// the same UNTRACKED operand object serves two applications, each back-propagated before the next is built
 	for i := 0; i < c.Pick(1500, 30000); i++ {
 		c.Case(func(k *fw.K) { c02Reuse(k) })
@@ -256,7 +354,7 @@ func runC02(c *fw.Ctx) {
 		rank := len(shape)
 
 		// ----- unary element-wise -----
-		for _, f := range []float64{-1.5, 0, 2} {
+		for _, f := range []float64{-1.5, 0, 2, 1, -1} {
 			f := f
 			one(fmt.Sprintf("scale/%g/%s", f, sk), func(k *fw.K) (ref.Instr, []*ref.T) { return ref.Instr{Op: "scale", F: f}, []*ref.T{u(k, shape)} }, 1)
 		}
@@ -468,6 +566,111 @@ func runC02(c *fw.Ctx) {
 
 // c02Reuse: a constant (untracked) operand is used with a tracked operand, the result is back-propagated, and the very same
 // constant object is then used with a FRESH tracked operand: the second application must deliver its vector-Jacobian product too.
+func c02Accepted(k *fw.K) {
+	r := k.Rng
+	shape := RandShape(r, 0, 4, 4)
+	rank := len(shape)
+	x := Shuffled(r, Unique(r, shape, 0.2, 2.5))
+	in := ref.Instr{}
+	xs := []*ref.T{x}
+	anyRange := func(d int) ref.Range { return ref.Range{From: r.Intn(d+3) - 1, To: r.Intn(d+3) - 1} }
+	switch q := r.Intn(8); q {
+	case 0, 1: // Slice with 0..rank+1 arbitrary ranges
+		in.Op = "slice"
+		for d := 0; d < r.Intn(rank+2); d++ {
+			sz := 1
+			if d < rank {
+				sz = shape[d]
+			}
+			in.Index = append(in.Index, anyRange(sz))
+		}
+	case 2, 3: // Patch of a small source under arbitrary ranges
+		in.Op = "patch"
+		src := make([]int, rank)
+		for d := range src {
+			src[d] = 1 + r.Intn(shape[d])
+		}
+		if rank > 0 && r.Intn(4) == 0 {
+			src = src[1:]
+		}
+		xs = append(xs, Shuffled(r, Unique(r, src, 5, 8)))
+		for d := 0; d < r.Intn(rank+2); d++ {
+			sz := 1
+			if d < rank {
+				sz = shape[d]
+			}
+			if r.Intn(2) == 0 && d < len(src) { // a range of exactly the source's extent at an arbitrary offset
+				from := r.Intn(sz+2) - 1
+				in.Index = append(in.Index, ref.Range{From: from, To: from + src[d]})
+			} else {
+				in.Index = append(in.Index, anyRange(sz))
+			}
+		}
+	case 4:
+		in.Op = []string{"squeeze", "unsqueeze", "flatten"}[r.Intn(3)]
+		in.Dim = r.Intn(rank+4) - 2
+	case 5:
+		in.Op = []string{"sumalong", "maxalong", "minalong", "avgalong", "varalong", "stdalong", "meanalong"}[r.Intn(7)]
+		in.Dim = r.Intn(rank+4) - 2
+	case 6:
+		in.Op = "reshape"
+		n := len(x.Data)
+		in.Shape = [][]int{{n}, {1, n}, {n, 1}, {-1}, {n, -1}, {0, n}, {}, {n + 1}, {2, (n + 1) / 2}}[r.Intn(9)]
+	default:
+		in.Op = "concat"
+		in.Dim = r.Intn(rank+4) - 2
+		o := ref.CopyInts(shape)
+		if rank > 0 && r.Intn(2) == 0 {
+			o[r.Intn(rank)] += r.Intn(3) - 1
+		}
+		for _, d := range o {
+			if d < 1 {
+				o = ref.CopyInts(shape)
+			}
+		}
+		xs = append(xs, Shuffled(r, Unique(r, o, 3, 5)))
+	}
+	k.Case = gcase{In: in, Ops: xs, Tracked: []bool{true, true}[:len(xs)]}
+	leaves := make([]tensor.Tensor, len(xs))
+	for i, v := range xs {
+		leaves[i] = rt.MustLeaf(v, true)
+	}
+	var y tensor.Tensor
+	var err error
+	if p := call(func() { y, err = rt.Exec(in, leaves) }); p != nil {
+		k.Failf("%s%v with index %v dim %d shape %v: panic %v", in.Op, shapesOf(xs), in.Index, in.Dim, in.Shape, p)
+		return
+	}
+	if err != nil || y == nil {
+		k.Count("arbitrary_argument_calls_refused", 1)
+		return
+	}
+	k.Count("arbitrary_argument_calls_accepted", 1)
+	k.Key("accepted/%s/%s/%v/%d/%v", in.Op, shapeKey(shape), in.Index, in.Dim, in.Shape)
+	if p := call(func() { err = tensor.BackPropagate(y) }); p != nil || err != nil {
+		k.Failf("%s%v with index %v dim %d shape %v was accepted (result shape %v) but the back-propagation failed: panic=%v err=%v", in.Op, shapesOf(xs), in.Index, in.Dim, in.Shape, y.Shape(), p, err)
+		return
+	}
+	for i, l := range leaves {
+		g := l.Gradient()
+		if g == nil {
+			k.Failf("%s%v with index %v dim %d shape %v was accepted but operand %d received no gradient", in.Op, shapesOf(xs), in.Index, in.Dim, in.Shape, i)
+			return
+		}
+		gv, e := rt.Read(g)
+		if e != nil || !ref.SameShape(gv.Shape, xs[i].Shape) {
+			k.Failf("%s%v with index %v dim %d shape %v was accepted but the gradient of operand %d has shape %v (%v)", in.Op, shapesOf(xs), in.Index, in.Dim, in.Shape, i, gv, e)
+			return
+		}
+		for _, v := range gv.Data {
+			if v != v || v-v != 0 {
+				k.Failf("%s%v with index %v dim %d was accepted but the gradient of operand %d is not finite: %v", in.Op, shapesOf(xs), in.Index, in.Dim, i, gv.Data)
+				return
+			}
+		}
+	}
+}
+
 func c02Reuse(k *fw.K) {
 	shape := RandShape(k.Rng, 0, 3, 3)
 	ops := []string{"elmax", "elmin", "add", "sub", "mul", "div", "patch"}
